@@ -576,7 +576,7 @@ class FDE:
                     else:
                         env[nm] = Opaque('module ' + nm)
             elif isinstance(s, ast.For):
-                it = self._ev(s.iter, env, fi)
+                it = self._marker_iter(self._ev(s.iter, env, fi), unparse(s.iter))
                 if isinstance(it, (dict, set, str, bytes)):
                     it = list(it)
                 if not isinstance(it, (list, tuple)) and type(it).__name__ not in _ITER_TYPES:
@@ -669,7 +669,7 @@ class FDE:
             elif isinstance(s, ast.If):
                 yield from self._run_gen(s.body if self._truth(self._ev(s.test, env, fi)) else s.orelse, env, fi)
             elif isinstance(s, ast.For):
-                it = self._ev(s.iter, env, fi)
+                it = self._marker_iter(self._ev(s.iter, env, fi), unparse(s.iter))
                 if isinstance(it, (dict, set, str, bytes)):
                     it = list(it)
                 if not isinstance(it, (list, tuple)) and type(it).__name__ not in _ITER_TYPES:
@@ -733,6 +733,25 @@ class FDE:
                         self.effects.append(('with_exit', unparse(it.context_expr)))
             else:
                 raise Unsupported('yield inside %s in %s' % (type(s).__name__, fi.qualname))
+
+    def _marker_iter(self, it, what):
+        """iteration over a marker tuple of the evaluator (a class, a closure, ...): an enum class yields its members in definition
+        order; anything else is not an iterable the evaluator models"""
+        if isinstance(it, tuple) and it and isinstance(it[0], str) and it[0] in ('class', 'ext', 'kind', 'closure', 'unbound', 'classayns', 'super', 'super_ayns', 'partial') and not hasattr(type(it), '_fields'):
+            if it[0] == 'class' and len(it) == 2 and it[1] in self.repo.classes:
+                ci_ = self.repo.classes[it[1]]
+                if any(b.split('.')[-1] in ('Enum', 'IntEnum', 'StrEnum', 'Flag', 'IntFlag') for b in ci_.base_exprs):
+                    out = []
+                    for st in ci_.node.body:
+                        if isinstance(st, ast.Assign) and len(st.targets) == 1 and isinstance(st.targets[0], ast.Name) and not st.targets[0].id.startswith('_'):
+                            nm = st.targets[0].id
+                            if (ci_.name, nm) not in self.class_objs:
+                                ok_, v_ = fold_const(self.repo, st.value, ci_.name)
+                                self.class_objs[(ci_.name, nm)] = EnumMember(ci_.name, nm, v_ if ok_ else Opaque('value of %s.%s' % (ci_.name, nm)))
+                            out.append(self.class_objs[(ci_.name, nm)])
+                    return out
+            raise Unsupported('iteration over %r (%s)' % (it, what))
+        return it
 
     def _handler_for(self, handlers, exc_name, fi):
         import builtins
@@ -1153,7 +1172,7 @@ class FDE:
             raise Unsupported('subscript of %r' % (b,))
         if isinstance(e, (ast.GeneratorExp, ast.ListComp)) and len(e.generators) == 1 and not e.generators[0].is_async:
             gen = e.generators[0]
-            it = self._ev(gen.iter, env, fi)
+            it = self._marker_iter(self._ev(gen.iter, env, fi), unparse(gen.iter))
             if isinstance(it, (dict, set, str, bytes)):
                 it = list(it)
             if not isinstance(it, (list, tuple)) and type(it).__name__ not in _ITER_TYPES:
@@ -1167,7 +1186,7 @@ class FDE:
             return out
         if isinstance(e, (ast.DictComp, ast.SetComp)) and len(e.generators) == 1 and not e.generators[0].is_async:
             gen = e.generators[0]
-            it = self._ev(gen.iter, env, fi)
+            it = self._marker_iter(self._ev(gen.iter, env, fi), unparse(gen.iter))
             if isinstance(it, (dict, set, str, bytes)):
                 it = list(it)
             if not isinstance(it, (list, tuple)) and type(it).__name__ not in _ITER_TYPES:
@@ -1359,7 +1378,7 @@ class FDE:
     def _lazy_genexp(self, g, env, fi):
         """a generator expression as a Python generator: elements are evaluated when the consumer asks for them"""
         gen = g.generators[0]
-        it = self._ev(gen.iter, env, fi)
+        it = self._marker_iter(self._ev(gen.iter, env, fi), unparse(gen.iter))
         if isinstance(it, (dict, set)):
             it = list(it)
         if not isinstance(it, (list, tuple)) and type(it).__name__ not in _ITER_TYPES:
